@@ -260,7 +260,9 @@ func runC19(d *RunDesc, res *RunResult) {
 						addCase("nilreader|" + verdict)
 					case f.ErrAt >= 0:
 						if !fired {
-							res.Trouble = "fault script with ErrAt did not fire"
+							// the library stopped reading before the failure offset: legal
+							// in itself, the clean-failure clause below still applies
+							res.Stats.count("fault-not-reached")
 						}
 						chk.checkClean("failing-reader", op.Tmpl, rd, err, cvsserr.ErrInvalidTemplate)
 						addCase(fmt.Sprintf("fail|%s|wd=%v|wt=%v|k=%d|%s", verdict, f.ErrWithData, f.WriterTo, f.ErrKind, op.Class))
